@@ -105,6 +105,12 @@ def corpus():
     C.append(E('L02', [Var('V0', 0, 'named', [F('f00', "Cow<'a, str>", 0, b=True, long='cbor'), F('f01', 'u8', 1, long='cbor')]),
                        Var('V1', 1, 'tuple', [F('_0', "Cow<'a, ByteSlice>", 0, b=True, long='cbor')], enc='map')], lifetimes=True, doc='long-form borrowing inside enum variants'))
     C.append(S('L03', 'tuple', [F('_0', "Cow<'a, str>", 0, b=True, long='cbor')], transparent=True, lifetimes=True, doc='transparent, long-form borrow'))
+    # --- Option spelled with its path, with and without a codec; enums whose variants are not declared in index order ----------------
+    C.append(S('Q00', 'struct', [F('f00', 'u8', 0), F('f01', 'core::option::Option<u8>', 1), F('f02', 'std::option::Option<String>', 2)], doc='path-qualified Option, array'))
+    C.append(S('Q01', 'struct', [F('f00', 'u8', 0), F('f01', "core::option::Option<&'a [u8]>", 1, b=True, codec='bytes'), F('f02', "std::option::Option<Cow<'a, [u8]>>", 3, b=True, codec='bytes')],
+               enc='map', lifetimes=True, doc='path-qualified Option with a codec that has no nil functions, map'))
+    C.append(E('E17', [Var('V2', 2), Var('V0', 0, 'tuple', [F('_0', 'u8', 0)]), Var('V1', 1, 'named', [F('f00', 'u8', 0), F('f01', 'Option<u8>', 1)])], doc='variants declared out of index order'))
+    C.append(E('E18', [Var('V3', 3), Var('V1', 1), Var('V2', 2)], index_only=True, doc='index_only, variants declared out of index order'))
     # --- values that are nil without being spelled Option<..>, and wrappers around Option that are *not* nil ----------------------
     C.append(S('T00', 'tuple', [F('_0', 'Option<u8>', 0)], transparent=True, doc='transparent newtype around an Option'))
     C.append(S('T01', 'tuple', [F('_0', 'u8', 0, tag=37)], transparent=True, doc='transparent newtype whose field carries a tag attribute (ignored by the derive)'))
@@ -163,6 +169,9 @@ def version_pairs():
     P.append((S('P08a', 'struct', [F('f00', 'u8', 0), F('f01', 'String', 1)]),
               S('P08b', 'struct', [F('f00', 'u8', 0), F('f02', 'Option<u8>', 1, tag=5), F('f01', 'String', 2)], doc=''),
               'NOT compatible (index moved) - negative control'))
+    P.append((S('P10a', 'struct', [F('f00', 'u8', 0)], enc='map'),
+              S('P10b', 'struct', [F('f00', 'u8', 0), F('f01', "core::option::Option<&'a [u8]>", 1, b=True, codec='bytes')], enc='map', lifetimes=True),
+              'add an optional field spelled core::option::Option with a nil-less codec (map)'))
     P.append((S('P09a', 'struct', [F('f00', 'u8', 0), F('f01', 'String', 2)]),
               S('P09b', 'struct', [F('f00', 'u8', 0), F('f02', 'Option<u8>', 1, tag=5), F('f01', 'String', 2)]), 'add tagged optional field at a gap index (array)'))
     return P
